@@ -57,6 +57,20 @@ for line in sys.stdin:
         elif req["op"] == "mins":
             seq = get_seq(req)
             resp = {"ok": [list(t) for t in pk.MinimiserGenerator(seq, req["w"], req["m"])]}
+        elif req["op"] == "acgt_loop":
+            # decoding while iterating, on the same object: [f, r, to_acgt(f), to_acgt(r)] per item, then once more
+            # the first item's codes after the loop
+            seq = get_seq(req)
+            kg = pk.KmerGenerator(seq, k)
+            rows = []
+            for f, r in kg:
+                rows.append([f, r, kg.to_acgt(f), kg.to_acgt(r)])
+            after = [kg.to_acgt(rows[0][0]), kg.to_acgt(rows[0][1])] if rows else []
+            mg = pk.MinimiserGenerator(seq, req["w"], req["m"])
+            mrows = []
+            for v, s0, e0 in mg:
+                mrows.append([v, mg.to_acgt(v)])
+            resp = {"ok": {"kmers": rows, "after": after, "mins": mrows}}
         elif req["op"] == "acgt":
             resp = {"ok": [pk.KmerGenerator("", k).to_acgt(req["x"]), pk.MinimiserGenerator("", k, k).to_acgt(req["x"])]}
         elif req["op"] == "cgr":
